@@ -397,7 +397,17 @@ def rule_clamp(ctx) -> None:
     cl = ctx.func(SNAP + ":_clamp")
     cmps = [x for x in walk_no_defs(cl.node) if isinstance(x, ast.Compare)]
     ops = sorted(type(c.ops[0]).__name__ for c in cmps)
-    ctx.check(ops == ["Gt", "Lt"], "C06.CLAMP", f"{cl.qual}/two-sided", cl.loc(), "_clamp is two-sided (x < lo, x > hi)", f"_clamp comparisons are {ops}")
+    lower = any(t in ops for t in ("Lt", "LtE")) or any(isinstance(x, ast.Call) and dotted(x.func) == "max" for x in walk_no_defs(cl.node))
+    upper = any(t in ops for t in ("Gt", "GtE")) or any(isinstance(x, ast.Call) and dotted(x.func) == "min" for x in walk_no_defs(cl.node))
+    ctx.check(lower and upper, "C06.CLAMP", f"{cl.qual}/two-sided", cl.loc(), "_clamp is two-sided (a lower and an upper bound are enforced)", f"_clamp comparisons are {ops}: one side of the interval is not enforced")
+    # NaN has no side of the interval: both comparisons are false and it passes the clamp; _round6 then writes 0.0 - AFTER the
+    # clamp, outside bounds that exclude 0, and the loader clamps that 0.0 to another value (the second body differs).  The
+    # clamp tells NaN apart (x != x / isnan / isfinite) before it compares.
+    nan_seen = any((isinstance(c, ast.Compare) and isinstance(c.ops[0], (ast.NotEq, ast.Eq)) and src(c.left) == src(c.comparators[0])) for c in cmps) or \
+        any(isinstance(x, ast.Call) and call_tail(x) in ("isnan", "isfinite") for x in walk_no_defs(cl.node))
+    ctx.check(nan_seen, "C06.CLAMP", f"{cl.qual}/nan-has-no-side", cl.loc(), "_clamp tells NaN apart before comparing with the bounds",
+              "_clamp compares only: a NaN weight fails both comparisons and passes, _round6 turns it into 0.0 after the clamp - with bounds that exclude 0 (weight_min = 0.2) the body carries a weight "
+              "outside the bounds, the loader clamps it to the bound, and the snapshot of the loaded state differs from the one that was loaded")
 
 
 # ------------------------------------------------------------------- DISC
@@ -496,6 +506,39 @@ def rule_mark(ctx) -> None:
             v = kwarg(c, "schema_version")
             ctx.check(isinstance(v, ast.Name) and v.id == "SCHEMA_VERSION", "C06.MARK", f"{q}/sidecar-marker", fn.loc(c),
                       "sidecar carries SCHEMA_VERSION", f"sidecar schema marker is `{src(v) if v is not None else None}`")
+    # the offline compaction writer (scripts/mem_compact.py, outside the package) writes snapshot-<etag>.full.json files too:
+    # each body it writes is followed, in the same loop body, by a sidecar write that ends in _write_sidecar_meta
+    import os
+    rel = "scripts/mem_compact.py"
+    try:
+        tree = ast.parse(open(os.path.join(ctx.prog.repo, rel), encoding="utf-8").read())
+    except OSError:
+        raise AnalysisError(f"anchor-vanished: {rel}")
+    defs = {x.name: x for x in ast.walk(tree) if isinstance(x, ast.FunctionDef)}
+
+    def reaches_sidecar(name: str, seen=()) -> bool:
+        d = defs.get(name)
+        if d is None or name in seen:
+            return False
+        for y in ast.walk(d):
+            if isinstance(y, ast.Call):
+                t = y.func.attr if isinstance(y.func, ast.Attribute) else (y.func.id if isinstance(y.func, ast.Name) else "")
+                if t == "_write_sidecar_meta" or reaches_sidecar(t, seen + (name,)):
+                    return True
+        return False
+
+    body_writers = {nm for nm, d in defs.items() if any(isinstance(y, ast.Call) and isinstance(y.func, ast.Name) and y.func.id == "_atomic_write_bytes" for y in ast.walk(d)) and nm != "_atomic_write_bytes"}
+    sites = 0
+    for lp in [x for x in ast.walk(tree) if isinstance(x, ast.For)]:
+        calls = [y for st in lp.body for y in ast.walk(st) if isinstance(y, ast.Call) and isinstance(y.func, ast.Name)]
+        bw = [y for y in calls if y.func.id in body_writers]
+        if not bw:
+            continue
+        sites += 1
+        after = [y for y in calls if y.lineno > bw[-1].lineno and reaches_sidecar(y.func.id)]
+        ctx.check(bool(after), "C06.MARK", f"{rel}/sidecar-follows-body", f"{rel}:{bw[0].lineno}", "each compacted snapshot is written together with its schema sidecar",
+                  f"`{src(bw[0])[:60]}` writes a compacted snapshot and nothing in the loop writes its sidecar: the compacted directory carries no schema marker (readers report schema 'unknown')")
+    ctx.floor("C06.MARK", "snapshot-writing loops in scripts/mem_compact.py", sites, 1)
     m = ctx.prog.module(SNAP)
     sv = [st for st in m.globals_assigned.get("SCHEMA_VERSION", [])]
     ctx.check(len(sv) == 1 and const_str(getattr(sv[0], "value", None)) is not None, "C06.MARK", f"{SNAP}/marker-constant", "snapshot.py",
